@@ -26,6 +26,7 @@ import (
 	"go.uber.org/zap"
 
 	"github.com/mimiro-io/datahub/internal/conf"
+	"github.com/mimiro-io/datahub/internal/verifhook"
 )
 
 const datasetCore = "core.Dataset"
@@ -128,6 +129,7 @@ func (dsm *DsManager) CreateDataset(name string, createDatasetConfig *CreateData
 	if err != nil {
 		return nil, err
 	}
+	verifhook.Point("CreateDataset:after-store-nextDatasetID")
 	if createDatasetConfig != nil {
 		ds.ProxyConfig = createDatasetConfig.ProxyDatasetConfig
 		ds.PublicNamespaces = createDatasetConfig.PublicNamespaces
@@ -139,9 +141,11 @@ func (dsm *DsManager) CreateDataset(name string, createDatasetConfig *CreateData
 	if err != nil {
 		return nil, err
 	}
+	verifhook.Point("CreateDataset:after-store-dataset")
 
 	dsm.store.datasets.Store(name, ds)
 	dsm.store.datasetsByInternalID.Store(ds.InternalID, ds)
+	verifhook.Point("CreateDataset:after-register-dataset")
 
 	// need to add the event publisher topic
 	dsm.logger.Infof("Registering dataset." + name)
@@ -156,6 +160,7 @@ func (dsm *DsManager) CreateDataset(name string, createDatasetConfig *CreateData
 		return ds, err
 	}
 
+	verifhook.Point("CreateDataset:after-store-meta-entity")
 	// making sure the event is triggered
 	dsm.eb.Emit(context.Background(), "dataset.core.Dataset", nil)
 
@@ -196,11 +201,13 @@ func (dsm *DsManager) UpdateDataset(name string, config *UpdateDatasetConfig) (*
 		if err != nil {
 			return nil, err
 		}
+		verifhook.Point("UpdateDataset:after-move-dataset")
 
 		// update in local cache
 		dsm.store.datasets.Delete(name)
 		dsm.store.datasets.Store(newName, ds)
 		dsm.store.datasetsByInternalID.Store(ds.InternalID, ds)
+		verifhook.Point("UpdateDataset:after-register-dataset")
 
 		// update eventbus
 		dsm.eb.UnregisterTopic(name)
@@ -223,6 +230,7 @@ func (dsm *DsManager) UpdateDataset(name string, config *UpdateDatasetConfig) (*
 		if err != nil {
 			return nil, err
 		}
+		verifhook.Point("UpdateDataset:after-delete-old-meta-entity")
 		entity.IsDeleted = false
 		entity.ID = dsInfo.DatasetPrefix + ":" + newName
 		entity.Properties[dsInfo.NameKey] = newName
@@ -230,6 +238,7 @@ func (dsm *DsManager) UpdateDataset(name string, config *UpdateDatasetConfig) (*
 		if err != nil {
 			return nil, err
 		}
+		verifhook.Point("UpdateDataset:after-store-new-meta-entity")
 		dsm.eb.Emit(context.Background(), "dataset.core.Dataset", nil)
 	}
 	return ds, nil
@@ -255,11 +264,13 @@ func (dsm *DsManager) DeleteDataset(name string) error {
 	// delete from local cache
 	dsm.store.datasets.Delete(name)
 	dsm.store.datasetsByInternalID.Delete(existingDataset.InternalID)
+	verifhook.Point("DeleteDataset:after-unregister-dataset")
 	key := existingDataset.getStorageKey()
 	err := dsm.store.deleteValue(key)
 	if err != nil {
 		return err
 	}
+	verifhook.Point("DeleteDataset:after-delete-dataset-record")
 
 	// record we deleted it.
 	// swap map out with new modified copy of map to avoid concurrent read/write issues which can occur if
@@ -270,10 +281,12 @@ func (dsm *DsManager) DeleteDataset(name string) error {
 	}
 	newDeletedDatasets[existingDataset.InternalID] = true
 	dsm.store.deletedDatasets = newDeletedDatasets
+	verifhook.Point("DeleteDataset:after-swap-deletedDatasets")
 	err = dsm.store.StoreObject(StoreMetaIndex, "deleteddatasets", dsm.store.deletedDatasets)
 	if err != nil {
 		return err
 	}
+	verifhook.Point("DeleteDataset:after-store-deletedDatasets")
 
 	dsm.eb.UnregisterTopic(name) // unregister event-handler on this topic. Note that subscriptions are left.
 
@@ -288,6 +301,7 @@ func (dsm *DsManager) DeleteDataset(name string) error {
 	if err != nil {
 		return err
 	}
+	verifhook.Point("DeleteDataset:after-delete-meta-entity")
 	dsm.eb.Emit(context.Background(), "dataset.core.Dataset", nil)
 
 	// fixme: schedule background job for cleaning up
